@@ -39,3 +39,4 @@ func IteI(c bool, a, b int64) int64     { sym(); return 0 }
 func IntRange(name string, lo, hi int64) int64 { sym(); return 0 }
 func ResetReplay()                       { sym() }
 func Settle()                            { sym() }
+func Tag(s string)                       { sym() }
